@@ -1,8 +1,88 @@
 //! Verification hook (compiled only with `--cfg quinn_rs_quinn_verif`).
+//!
+//! Component: `send_buffer` (`connection/send_buffer.rs`), model `coq/Model/SendBuffer.v`.
 #![allow(missing_docs, dead_code, unused_imports, unreachable_pub, clippy::all)]
 use super::{Ops, Outs};
+use crate::connection::send_buffer::SendBuffer;
+use bytes::Bytes;
 
-/// Interpret `ops` for component `comp`; `None` if `comp` is not served by this module.
-pub(crate) fn run(_comp: &str, _ops: &Ops) -> Option<Outs> {
-    None
+/// send_buffer ops (one `SendBuffer::new()` per case):
+///   [0, b0, b1, ...]     write(bytes)                 -> [0]
+///   [1, max_len]         poll_transmit(max_len), then the copy loop of `write_stream_frames`
+///                        (`get(start..end)` repeated, start advanced by the returned length)
+///                          -> [0, start, end, encode_length, bytes...]
+///                           | [2, start, end, encode_length, bytes copied so far...] if `get` returned
+///                             an empty slice while start != end (the real loop would spin forever)
+///   [2, start, end]      ack(start..end)              -> [0]
+///   [3, start, end]      one `get(start..end)`        -> [bytes...]
+///   [4, start, end]      retransmit(start..end)       -> [0]
+///   [5]                  retransmit_all_for_0rtt      -> [0]
+///   [6]                  -> [is_fully_acked, unacked(), offset(), has_unsent_data]
+///   [7]                  probe                        -> see `SendBuffer::verif_probe`
+fn send_buffer(ops: &Ops) -> Outs {
+    let mut s = SendBuffer::new();
+    ops.iter()
+        .map(|op| match op[0] {
+            0 => {
+                let b: Vec<u8> = op[1..].iter().map(|x| *x as u8).collect();
+                s.write(Bytes::from(b));
+                vec![0]
+            }
+            1 => {
+                let (range, enc) = s.poll_transmit(op[1] as usize);
+                let mut data: Vec<u8> = Vec::new();
+                let mut offsets = range.clone();
+                let mut stuck = false;
+                while offsets.start != offsets.end {
+                    let d = s.get(offsets.clone());
+                    if d.is_empty() {
+                        stuck = true;
+                        break;
+                    }
+                    offsets.start += d.len() as u64;
+                    data.extend_from_slice(d);
+                }
+                let mut o = vec![
+                    if stuck { 2 } else { 0 },
+                    range.start as i128,
+                    range.end as i128,
+                    enc as i128,
+                ];
+                o.extend(data.iter().map(|x| *x as i128));
+                o
+            }
+            2 => {
+                s.ack(op[1] as u64..op[2] as u64);
+                vec![0]
+            }
+            3 => s
+                .get(op[1] as u64..op[2] as u64)
+                .iter()
+                .map(|x| *x as i128)
+                .collect(),
+            4 => {
+                s.retransmit(op[1] as u64..op[2] as u64);
+                vec![0]
+            }
+            5 => {
+                s.retransmit_all_for_0rtt();
+                vec![0]
+            }
+            6 => vec![
+                s.is_fully_acked() as i128,
+                s.unacked() as i128,
+                s.offset() as i128,
+                s.has_unsent_data() as i128,
+            ],
+            7 => s.verif_probe(),
+            _ => vec![-1],
+        })
+        .collect()
+}
+
+pub(crate) fn run(comp: &str, ops: &Ops) -> Option<Outs> {
+    match comp {
+        "send_buffer" => Some(send_buffer(ops)),
+        _ => None,
+    }
 }
